@@ -357,6 +357,9 @@ func (fr *Frame) applyContract(c *Contract, f *ssa.Function, sig *types.Signatur
 		}
 	}
 	for _, cl := range posts {
+		if len(cl.Tags) > 0 && vc.e.knownFailing[key+"/post:"+cl.Tags[0]] {
+			continue // a clause recorded as a known finding is false on some inputs: callers must not rely on it
+		}
 		if vc.prop != "" && otherPropOnly(cl.Tags, vc.prop) {
 			continue // a check of property P relies only on clauses that are untagged or tagged P
 		}
@@ -469,6 +472,9 @@ func (fr *Frame) siteClauses(short string, ord int, when string, args []Val, f *
 		env := fr.envAt(fr.curBlock, true, nil)
 		env.heap = fr.heap
 		env.sec = fr.secHeap
+		if fr.curInstr != nil {
+			env.maxOrd = fr.instrOrd[fr.curInstr]
+		}
 		// arguments by position: arg0, arg1, ... and callee parameter names prefixed with "$"
 		for j, a := range args {
 			env.names[fmt.Sprintf("arg%d", j)] = a
